@@ -292,7 +292,9 @@ def draw_property_layers(
 
             # Normalize colors
             norm = Normalize(vmin=vmin, vmax=vmax)
-            colors = data.ravel()  # flatten data to 1D array
+            # _get_hexmesh yields the hexagons row by row (y outer, x inner) while data is
+            # indexed [x, y], so flatten the transpose to give hexagon (x, y) the value data[x, y]
+            colors = data.T.ravel()
 
             if "color" in portrayal:
                 normalized_colors = np.clip(norm(colors), 0, 1)
